@@ -11,6 +11,7 @@ import json
 import unicodedata
 import shutil
 
+from .. import trees
 from ..models import glob_ref
 from ..util import Res, chunks, rng_for, short_hash
 
@@ -309,7 +310,7 @@ def run_lint(case, ctx, res):
     attached = con.attach("reuse.global_licensing", "matches", cond, cls_name="AnnotationsItem")
     try:
         names = ["a.py", "b.py", "x.a", "dir/a.py", "dir/sub/a.py", "dir/b.txt", "*.py", "st*r.txt", "dir/**", "a", "dir/a",
-                 "back\\slash.py", "sp ace.py", "dir/sub/deep/er.py", "ab.py", "xa", "dir/xa", "dir/two\nlines.py", "line\nfeed.py"]
+                 "back\\slash.py", "sp ace.py", "dir/sub/deep/er.py", "ab.py", "xa", "dir/xa", "dir/two\nlines.py", "line\nfeed.py", "line\\\nfeed.py", "tail\\"]
         # the REUSE.toml sits in the project root or - as the project's only one - in a sub-directory: its globs speak about paths
         # relative to *its* directory, and say nothing about files outside of it
         base_rel = ["", "", "pkg", "deep/er/pkg"][case["k"] % 4]
@@ -321,7 +322,7 @@ def run_lint(case, ctx, res):
                 p.write_text("content\n")
         res.cell("lint:toml-in:" + (base_rel or "root"))
         globs = ["*.py", "**/*.py", "**/a", "dir/*", "dir/**", "\\*.py", "st\\*r.txt", "**", "*", "dir/**/a.py", "a*", "*a",
-                 "back\\\\slash.py", "sp ace.py", "**/er.py", "**a", "dir/*/a.py"]
+                 "back\\\\slash.py", "sp ace.py", "**/er.py", "**a", "dir/*/a.py", "line\\\nfeed.py", "line\\\nfeed.py"]
         rng.shuffle(globs)
         chosen = globs[: rng.randint(3, 7)]
         toml = ["version = 1", ""]
@@ -378,6 +379,22 @@ def run_lint(case, ctx, res):
                 ok = True  # readings differ for this file: not asserted here (the contract still is)
             if not ok:
                 res.violation("lint-attribution", f"{path!r} attributed {sorted(got)} with tables {chosen}", path=path, globs=chosen)
+        # the same project named by a relative root from its parent directory: the globs speak about the same files
+        r2 = run_cli(["--no-multiprocessing", "--root", root.name, "lint", "--json"], cwd=str(root.parent))
+        try:
+            d2 = json.loads(r2.stdout)
+        except ValueError:
+            d2 = None
+            res.violation("lint-json-unparseable", "lint --json with a relative root gave no JSON", **r2.brief())
+        if d2 is not None:
+            m1 = {trees.norm_path(f["path"], root, str(root)): sorted(x["value"] for x in f["spdx_expressions"]) for f in data["files"]}
+            m2 = {trees.norm_path(f["path"], root, str(root.parent)): sorted(x["value"] for x in f["spdx_expressions"]) for f in d2["files"]}
+            res.n += 1
+            if m1 != m2:
+                bad = sorted(k for k in set(m1) | set(m2) if m1.get(k) != m2.get(k))[:4]
+                res.violation("lint-attribution:relative-root", f"with --root {root.name} from the parent directory the tables apply differently: "
+                              + "; ".join(f"{k!r}: {m1.get(k)} vs {m2.get(k)}" for k in bad), globs=chosen)
+            res.cell("lint:relative-root-from-parent")
         res.sigs.add(short_hash("lint", *chosen))
         ctx.count("contract_evals_matches", con.evals.get("reuse.global_licensing.AnnotationsItem.matches", 0))
         if not attached:
